@@ -10,6 +10,10 @@ CHECKS = {
    technique="TLA+ spec (Poly/Limbs/HalVecZnx) + TLC: ring-law model check, TLC-enumerated descriptors replayed on 4 back-ends, trace validated by TLC",
    text="TLC checks the ring laws on the specification (all k in [-4N,4N], all odd g, N<=8/16), then enumerates every (op, N, sizes, k|g, limb, part) descriptor of the scope; each is executed on the real FFT64Ref/FFT64Avx/NTT120Ref/NTT120Avx modules from two garbage pre-fills and the logged call is re-derived by TLC from Poly.tla. Exhaustive over the shape/parameter scope, one generic operand per descriptor (maps are linear / signed permutations).",
    note="Trusts TLC, the harness projection (raw limbs via the public layout) and that seeded generic operand values expose any wrong index/sign (linear maps). N<=8 quick, N<=32 thorough; larger N in the trace corpora of C10."),
+ "C08": dict(level=MC, design="§2 C08",
+   technique="TLA+ spec (Limbs/HalNorm/Encoding): relational post-condition model-checked against a constructive reference; TLC-enumerated descriptors with exhaustive digit alphabets replayed on 4 back-ends; trace validated by TLC incl. completeness of the enumeration",
+   text="The two-line arithmetic fact (result = source*2^off on the torus within one unit of the last limb, exact when E>=0, balanced digits for equal radices; encode/decode round trip mod 2^k, exact rational decoding) is the TLA+ post-condition. TLC shows it satisfiable/non-vacuous (MC_Norm), enumerates every (op, radix pair, size pair, offset) descriptor for b<=3 (quick, seeded subset) / b<=4 (thorough, all), the harness expands each to every digit tuple including out-of-range digits and TLC validates every coefficient of every call on 4 back-ends and re-derives the enumeration order so completeness is decided by TLC.",
+   note="Small-scope exhaustive (b<=4, sizes<=3, N=8); wide radices (up to 62 bits) not yet covered by a BigZ corpus. Known findings (known_findings.json) mask the gap=1, cross-radix-rounding and rsh_assign classes."),
 }
 NA_REASON = "check not built yet in this round (planned in DESIGN.md §2); not claimed"
 
